@@ -584,6 +584,76 @@ func c08AllocSites(s *source, e *emitter, rel, fn, lean string) {
 	e.stringList(lean+"Hoisted", "values stored inside a loop of `"+fn+"` whose variable was declared outside that loop", hoisted)
 }
 
+// c08PerCallState emits, for one function, (1) the package-level variables of its file that its body touches (state that
+// outlives the call: unmarshalers, pools, caches) and (2) where the intermediate map it fills comes from: the defining
+// expression of every local variable that is indexed on the left of an assignment (`m[k] = …`).
+func c08PerCallState(s *source, e *emitter, rel, fn, lean string) {
+	fd := s.findFunc(rel, fn)
+	globals := []string{}
+	origins := []string{}
+	if fd == nil || s.file(rel) == nil {
+		e.errors = append(e.errors, "function "+fn+" not found in "+rel)
+	} else {
+		pkgVars := map[string]bool{}
+		for _, d := range s.file(rel).Decls {
+			if gd, ok := d.(*ast.GenDecl); ok && gd.Tok == token.VAR {
+				for _, sp := range gd.Specs {
+					if vs, ok := sp.(*ast.ValueSpec); ok {
+						for _, n := range vs.Names {
+							pkgVars[n.Name] = true
+						}
+					}
+				}
+			}
+		}
+		defs := map[string]string{}
+		seen := map[string]bool{}
+		var filled []string
+		ast.Inspect(fd.Body, func(n ast.Node) bool {
+			switch x := n.(type) {
+			case *ast.Ident:
+				if pkgVars[x.Name] && !seen[x.Name] {
+					if _, local := defs[x.Name]; !local {
+						seen[x.Name] = true
+						globals = append(globals, x.Name)
+					}
+				}
+			case *ast.AssignStmt:
+				if x.Tok == token.DEFINE {
+					for i, l := range x.Lhs {
+						if id, ok := l.(*ast.Ident); ok && i < len(x.Rhs) {
+							defs[id.Name] = strings.Join(strings.Fields(s.src(x.Rhs[i])), " ")
+						}
+					}
+				}
+				for _, l := range x.Lhs {
+					if ix, ok := l.(*ast.IndexExpr); ok {
+						if id, ok := ix.X.(*ast.Ident); ok {
+							dup := false
+							for _, f := range filled {
+								dup = dup || f == id.Name
+							}
+							if !dup {
+								filled = append(filled, id.Name)
+							}
+						}
+					}
+				}
+			}
+			return true
+		})
+		for _, f := range filled {
+			d, ok := defs[f]
+			if !ok {
+				d = "NOT-LOCAL"
+			}
+			origins = append(origins, f+" := "+d)
+		}
+	}
+	e.stringList(lean+"Globals", "package-level variables touched by `"+fn+"` in "+rel, globals)
+	e.stringList(lean+"MapOrigins", "where the maps filled by `"+fn+"` come from", origins)
+}
+
 func c08Semantic(s *source, e *emitter) {
 	const fo = "core/mapping/fieldoptions.go"
 	const ut = "core/mapping/utils.go"
@@ -627,6 +697,14 @@ func c08Semantic(s *source, e *emitter) {
 	calls(um, "getValue", "getValueCalls")
 	calls(um, "getValueWithChainedKeys", "chainedKeysCalls")
 	c08ReadKeysEffects(s, e, um)
+	// --- round 5e: no state but the unmarshaler outlives a call of the front ends; the intermediate map is made per call
+	c08PerCallState(s, e, "rest/internal/encoding/parser.go", "ParseHeaders", "parseHeadersState")
+	c08PerCallState(s, e, "rest/httpx/requests.go", "ParsePath", "parsePathState")
+	c08PerCallState(s, e, "rest/httpx/requests.go", "ParseForm", "parseFormState")
+	c08PerCallState(s, e, "rest/httpx/requests.go", "ParseJsonBody", "parseJsonBodyState")
+	c08PerCallState(s, e, "rest/httpx/util.go", "GetFormValues", "getFormValuesState")
+	c08PerCallState(s, e, "core/conf/config.go", "toLowerCaseKeyMap", "confLowerState")
+	c08PerCallState(s, e, "core/conf/config.go", "LoadFromJsonBytes", "confLoadJsonState")
 	// --- round 5c: a fresh target per entry / per element
 	c08AllocSites(s, e, um, "Unmarshaler.generateMap", "generateMap")
 	c08AllocSites(s, e, um, "Unmarshaler.fillSlice", "fillSlice")
